@@ -127,6 +127,7 @@ func rprop(f func(ConstVector) (MagicScalar, error), x0 ConstVector, step_init f
         }
       }
     }
+    reduced := false
     for {
       verifhook.Tick("rprop.backtrack")
       // update x
@@ -155,9 +156,23 @@ func rprop(f func(ConstVector) (MagicScalar, error), x0 ConstVector, step_init f
             step[i] *= eta[1]
           }
         }
+        reduced = true
       } else {
         // new position is valid, exit loop
         break
+      }
+    }
+    if reduced {
+      // every step that moves x was rejected and the step sizes have shrunk
+      // until x2 equals x1: no further progress is possible
+      moved := false
+      for i := 0; i < x1.Dim(); i++ {
+        if x1.Float64At(i) != x2.Float64At(i) {
+          moved = true
+        }
+      }
+      if !moved {
+        return x1, fmt.Errorf("no valid step found")
       }
     }
     x1.Set(x2)
